@@ -52,6 +52,7 @@ def std_world(ctx, with_p3=False, c1='optional', child=True, ctypes=False):
     w.user('user2')
     if ctypes:
         w.consumer_type('INSTANCE')
+        w.consumer_type('MIGRATION')
     w.provider(1)
     w.provider(2, parent=1 if child else None)
     if with_p3:
@@ -125,7 +126,7 @@ def _alloc_body(ctx, allocs, version, project='proj', user='user',
 
 
 def put_alloc(targets, version='1.36', consumer=1, project='proj',
-              user='user', rc='VCPU'):
+              user='user', rc='VCPU', ctype='INSTANCE'):
     """PUT /allocations/{c}: targets = list of provider numbers or BAD"""
     def request(ctx, w, shape):
         allocs = {}
@@ -134,7 +135,7 @@ def put_alloc(targets, version='1.36', consumer=1, project='proj',
             allocs[uuid] = {'resources': {
                 rc: ctx.int('amt_%d' % i)}}
         body = _alloc_body(ctx, allocs, version, project, user,
-                           n=consumer)
+                           ctype=ctype, n=consumer)
         return app.call('PUT', '/allocations/' + CONS(consumer), body,
                         version=version)
     return request
@@ -337,6 +338,21 @@ def shapes(tier):
         S('alloc-put-1.38', put_alloc([1], version='1.38'), version='1.38',
           kind='alloc', wkw=dict(ctypes=True), targets=[1], consumers=[1],
           ctype='INSTANCE'),
+        # every combination of changed consumer attributes in one write
+        S('alloc-put-1.38-newtype', put_alloc([1], version='1.38',
+                                              ctype='MIGRATION'),
+          version='1.38', kind='alloc', wkw=dict(ctypes=True), targets=[1],
+          consumers=[1], ctype='MIGRATION'),
+        S('alloc-put-1.38-newproj+newtype',
+          put_alloc([1], version='1.38', project='proj2', user='user',
+                    ctype='MIGRATION'),
+          version='1.38', kind='alloc', wkw=dict(ctypes=True), targets=[1],
+          consumers=[1], project='proj2', ctype='MIGRATION'),
+        S('alloc-put-1.38-newuser+newtype',
+          put_alloc([1], version='1.38', project='proj', user='user2',
+                    ctype='MIGRATION'),
+          version='1.38', kind='alloc', wkw=dict(ctypes=True), targets=[1],
+          consumers=[1], user='user2', ctype='MIGRATION'),
         S('alloc-post-2c', post_alloc({1: [1], 3: [1]}), kind='alloc',
           targets=[1], consumers=[1, 3]),
         S('alloc-post-clear+new', post_alloc({1: [], 3: [1]}), kind='alloc',
